@@ -162,6 +162,10 @@ func (p *Prog) Pos(pos token.Pos) string {
 func (p *Prog) TypeID(t types.Type) int {
 	p.mu.Lock()
 	defer p.mu.Unlock()
+	// byte/uint8 and rune/int32 are the same type
+	if b, ok := t.(*types.Basic); ok && b.Kind() != types.Invalid && int(b.Kind()) < len(types.Typ) && types.Typ[b.Kind()] != nil {
+		t = types.Typ[b.Kind()]
+	}
 	k := types.TypeString(t, nil)
 	if id, ok := p.typeIDs[k]; ok {
 		return id
